@@ -89,7 +89,7 @@ def build(case):
 
 def cases(seed, tier):
     rng = random.Random('c08-%s' % seed)
-    n = 220 if tier == 'quick' else 3000
+    n = 880 if tier == 'quick' else 6000
     out = []
     for i in range(n):
         prng = random.Random(rng.getrandbits(64))
